@@ -30,7 +30,7 @@ CLAIMS = {
               "RangeProof::verify / SurjectionProof::verify; plus the argument bindings of the three checks, every push into "
               "the domain/commitment vectors (the spent output's entries pushed for every input, unfiltered), the get_value_commit "
               "decision table, zero-value admissibility incl. the truth table of Script::is_provably_unspendable, and the exact-value "
-              "proof verifiers. That libsecp256k1-zkp rejects a tampered proof is trusted."),
+              "proof verifiers (bindings of their verify calls; the asset-proof verifier's answer is that call's result on every path). That libsecp256k1-zkp rejects a tampered proof is trusted."),
         technique="CFG must-pass-through / failing-edge reachability + provenance of call arguments + decision table",
         design_ref="§4 C05"),
     "C14": dict(
